@@ -2,6 +2,7 @@
    Statements only; proofs are in Proofs/CliContract.v and Proofs/AnalyzerProofs.v. *)
 From Coq Require Import List NArith Bool Permutation.
 From Verif Require Import Base.Res Model.Cli Model.Analyzer Proofs.CliContract Proofs.AnalyzerProofs Base.Text Model.Scope Proofs.ScopeProofs Gen.GenRules Model.Rules Proofs.RulesProofs.
+From Verif Require Model.ExprKind Proofs.ExprKindProofs.
 Import ListNotations.
 
 (* a file that fails to tokenize or parse makes the check of the whole set fail, whatever the other
@@ -81,3 +82,9 @@ Proof. exact xform_type_init_reports. Qed.
 Theorem C03_duplicate_type_diagnosed : forall fs, ~ NoDup (map fst (decls fs)) ->
   exists d, xform_type_init fs = inr [d] /\ fst d = P_DefinitionNameDuplicated.
 Proof. exact xform_type_init_duplicate. Qed.
+
+(* a unit in which a bare identifier cannot be resolved (the transformation answers "not implemented") makes the whole
+   library fail, whatever accompanies it and wherever it stands *)
+Theorem C03_unresolved_expression_not_masked : forall us u, In u us -> ExprKind.unit_res u = None ->
+  ExprKind.resolve_expr_kinds (flat_map ExprKind.flat_unit us) = None.
+Proof. exact ExprKindProofs.failing_unit_not_masked. Qed.
